@@ -27,6 +27,10 @@ CLAIMED = {
    technique="symbolic execution of MIR (one step from an arbitrary state) + z3; real-CLI verdict matrix as replay",
    text="Partial: step lemmas, not the end-to-end statement. occurs(): for every Tag variant and every Tag-typed child position read from the enum declaration, no feasible path returns false without recursing into that child (closures of iterator adaptors followed). unify(): union(x,y) is reached only with x a variable, after occurs(x,y) returned false, on (reduce(left),reduce(right)) up to orientation; literal Ok otherwise only when the reduced operands are equal; Func/Func requires equal binding counts and recurses on ranges and on every zipped binding pair; Property/Property recurses on the payloads; everything else is Err. UnionFind::union writes exactly parents[rep(left)] = rep(right); reduce/reduce_mut loop bodies move to the parent and stop exactly at a fixed point; find and the free reduce() substitute inside every child. Values unbounded; one loop iteration / one recursion level per lemma.",
    note="Trusted: MIR text, mirsym, z3/cvc5, structural equality summary for <Tag as PartialEq>::eq, child positions parsed from tag.rs. Outside: that the steps compose to 'accepts iff solvable', whole-run termination, order/name independence at program level. A failing lemma is reported only if the real oal-cli deviates on the 11-program verdict matrix (else exit 2)."),
+ "C10": dict(engine="M", category="model_checking", design="DESIGN.md 3/C10",
+   technique="MIR symbolic execution/z3 of one step of module::load's work-list, import and compile loops; recording in-memory Loader around the real function as replay",
+   text="Partial: step lemmas over the generic oal_compiler::module::load, not all import graphs. The main module is loaded first; one import step loads/parses a module only on the path where the dependency map has no entry for its locator, and then registers it, adds its node, adds the edge import->importer, records it in the map and enqueues it, each once; a known module only gets the edge from its recorded node; an import that is not valid fails load() before anything is loaded; the compile loop walks the unmodified result of toposort(graph), compiles the module of each node and stops at the first error; load() returns Ok only after toposort returned Ok and every Loader call on the path returned Ok; a failed topological sort fails load() with Kind::CycleDetected and compiles nothing.",
+   note="Trusted: MIR text, mirsym, z3; library contracts of HashMap::get/insert and petgraph::toposort (stated). Outside: composition of the steps over a whole run (the deps-map invariant), Locator::join normalisation, termination. A failing lemma is reported only if a recording in-memory Loader driven through the real load() shows a wrong call sequence on one of 9 import graphs (chain, diamond, reordered uses, relative spellings, cycles incl. self-import and through main, missing import)."),
  "C13": dict(engine="M", category="model_checking", design="DESIGN.md 3/C13",
    technique="symbolic execution of MIR (uninterpreted calls) + z3 over all paths; real-CLI replay",
    text="All non-cleanup paths of run/main (oal-cli), Processor::{load,eval}, ProcLoader/WebLoader::{parse,compile}, wasm process/compile are executed symbolically with every callee an uninterpreted function with symbolic Ok/Err outcome; z3 decides per path: SUCCESS <=> run Ok; Ok => exactly one write_file, it returned Ok, its buffer is to_string(into_openapi(..)) of this run and goes to the configured target, every inspected fallible step returned Ok; Err after write_file => write_file failed; loaders: Ok => oal_syntax::parse reported no error; compile/eval wrappers agree with the compiler's verdict; relational CLI-vs-playground query (same module set => both fail or same YAML term). Partial: diagnostics' text/location and the LSP clause are outside.",
@@ -50,7 +54,6 @@ NA = {
  "C05": "relates two whole compilations of rewritten programs; same obstacle as C02",
  "C08": "resolver/evaluator scoping over arena trees and HashMap scope stacks; no encoding within reach",
  "C09": "petgraph SCC iteration and SHA-256 naming over arena indices; outside Kani and loop/graph-shaped so outside the MIR engine",
- "C10": "worklist over HashMap<Locator,_> plus petgraph toposort for all import graphs; no bounded encoding of petgraph/hashbrown within reach",
  "C11": "token tiling is a property of the logos DFA (4 symbolic bytes > 20 min) and of the parser+arena (5 concrete tokens > 3 min); the reachable fragments are by-construction identities",
  "C12": "needs the parser with and without its HashMap memo on symbolic token lists; linearity is a complexity claim, not a bounded assertion",
  "C17": "handlers traverse the arena and compare Definitions across a HashMap module set; needs whole trees under a solver",
